@@ -16,6 +16,7 @@ fuel exceeds the rank of the element called: every `_parse` call returns a match
                   (`manyLoop`: `if l ≤ loc then hang`, `ignoreOne`: `if l ≤ loc then hang`) for the calls the model makes
                   there.  SkipTo's `ignore=` expression needs no condition: its loop (`ignLoop`) leaves on a zero-width match;
 * `acyclic_terminates`   fuel `> r id` suffices, for every input, location and flags;
+* `depthOk g k id`, `acyclic_terminates_depth`  the same with the rank computed: fuel `≥` height of the element suffices;
 * `parseString_terminates`, `scanString_terminates` the same for parse_string (also with parse_all) and scan_string;
 * `advancing_of_nonempty` a simpler sufficient condition for `Advancing`;
 * `advOk g k`, `advancing_of_advOk`, `acyclic_terminates_checked`  an executable sufficient test for `Advancing`, and the
@@ -74,6 +75,38 @@ theorem acyclic_terminates (g : Grammar) (r : Nat → Nat) (hr : rankOk g r = tr
     intro c hc
     have := rankOk_spec hr hg hc
     exact ih c this.1 (by omega)
+
+/-- the same with the rank computed rather than supplied: `depthOk g k id` — the sub-table reachable from `id` is a
+    tree-like (acyclic) structure of height `< k` inside the table -/
+def depthOk (g : Grammar) : Nat → Nat → Bool
+  | 0, _ => false
+  | k+1, i =>
+    match g[i]? with
+    | none => false
+    | some nd => nd.children.all (depthOk g k)
+
+/-- **fuel ≥ height suffices**: an element whose reachable sub-table has height `< k` does not hang with any fuel `≥ k` -/
+theorem acyclic_terminates_depth (g : Grammar) (s : List Char) (ha : Advancing g s) :
+    ∀ k id, depthOk g k id = true → ∀ fuel, k ≤ fuel → ∀ loc acts callPre,
+      parse g s fuel id loc acts callPre ≠ .hang := by
+  intro k
+  induction k with
+  | zero => intro id h; simp [depthOk] at h
+  | succ k ih =>
+    intro id h fuel hf loc acts callPre
+    cases fuel with
+    | zero => omega
+    | succ f =>
+      unfold depthOk at h
+      cases hg : g[id]? with
+      | none => rw [hg] at h; simp at h
+      | some nd =>
+        rw [hg] at h
+        simp only [List.all_eq_true] at h
+        have hA := ha f id nd hg
+        show parseStep g s (parse g s f) id loc acts callPre ≠ .hang
+        exact parseStep_nohang g s (parse_adv g s f) (parse_bndAll g s f) hg
+          ⟨fun c hc => ih c (h c hc) f (by omega), hA.1, hA.2⟩ loc acts callPre
 
 /-- a uniform fuel: the largest rank plus one serves every element of the table -/
 theorem acyclic_terminates_uniform (g : Grammar) (r : Nat → Nat) (hr : rankOk g r = true) (s : List Char)
@@ -218,6 +251,9 @@ def exG : Grammar :=
 
 /-- the table is well-founded (rank = id: operands are built before the result) -/
 example : rankOk exG id = true := by decide
+
+/-- … and has height 3 from the root: fuel 3 is enough for `And[Word, ZeroOrMore(Literal)]` -/
+example : depthOk exG 3 3 = true ∧ depthOk exG 2 3 = false := by decide
 
 /-- a table with a Forward cycle is rejected (here for the rank `id`; it is for every rank, since `r 0 < r 0` is false) -/
 example : rankOk [leaf (.forward (some 0))] id = false := by decide
